@@ -41,6 +41,7 @@ fn main() {
         "C15" => corr::c15::run(&mut ctx),
         "C16" => corr::c16::run(&mut ctx),
         "C18" => corr::c18::run(&mut ctx),
+        "C19" => corr::c19::run(&mut ctx),
         "C20" => corr::c20::run(&mut ctx),
         "C05" | "C06" | "C07" | "C09" => { let id2 = id.clone(); corr::conn::run(&mut ctx, &id2) },
         other => { eprintln!("unknown property {}", other); std::process::exit(2); },
